@@ -47,6 +47,7 @@ type modelBeh struct {
 	Lay string `json:"lay"`
 	Tk  []int  `json:"tk"`
 	Fk  string `json:"fk"` // kind of store operation of which one fails in this behaviour ("none")
+	Nx  bool   `json:"nx"` // gen: the store offers SetNX
 	St  []step `json:"st"`
 }
 
@@ -60,7 +61,8 @@ type behaviour struct {
 	St     []step `json:"st,omitempty"`
 	NSlots int    `json:"nslots,omitempty"`
 	Timed  bool   `json:"timed,omitempty"`
-	Src    string `json:"src,omitempty"` // generation job of a timed behaviour (they are selected in ExtraBeh)
+	TTL0   bool   `json:"ttl0,omitempty"` // generator built with marker TTL 0 ("until Release"); hybrid with a short default cache TTL
+	Src    string `json:"src,omitempty"`  // generation job of a timed behaviour (they are selected in ExtraBeh)
 	Cat    string `json:"cat,omitempty"`
 	Seed   int    `json:"seed,omitempty"`
 	Procs  int    `json:"procs,omitempty"`
@@ -134,6 +136,8 @@ func drive(env *fw.Env, fb fw.Behaviour) *fw.Trace {
 	switch b.Kind {
 	case "gen":
 		return driveGen(env, &b)
+	case "uuid":
+		return driveUUID(env, &b)
 	case "genfree":
 		defer enterFree()()
 		return driveGenFree(env, &b)
@@ -151,6 +155,9 @@ func drive(env *fw.Env, fb fw.Behaviour) *fw.Trace {
 type mcfg struct {
 	mode, procs, layouts, renew, wiring string
 	faults                              string // kinds of store operation of which one may fail once
+	maxRF                               int    // transient heartbeat failures per node
+	lapse                               bool   // gen: the Lapse action
+	bothNX                              bool   // gen: one run over the SetNX store and the SetNX-less store
 	hasNX                               bool
 	ncands, maxAtt, maxCalls            int
 	nslots, maxTicks                    int
@@ -169,11 +176,16 @@ func (c mcfg) job(name string, emit bool, invs string, workers int) fw.TLCJob {
 	if c.layouts == "" {
 		c.layouts = `"distinct"`
 	}
+	nx := map[bool]string{true: "yes", false: "no"}[c.hasNX]
+	if c.bothNX {
+		nx = "both"
+	}
 	return fw.TLCJob{Name: name, Module: "IdGen", Cfg: "IdGen.cfg", Workers: workers, Consts: map[string]string{
-		"MODE": c.mode, "PROCS": c.procs, "HASNX": b(c.hasNX), "NCANDS": fmt.Sprint(max(c.ncands, 1)),
+		"MODE": c.mode, "PROCS": c.procs, "HASNX": nx, "NCANDS": fmt.Sprint(max(c.ncands, 1)),
 		"MAXATT": fmt.Sprint(max(c.maxAtt, 1)), "MAXCALLS": fmt.Sprint(max(c.maxCalls, 1)), "LAYOUTS": c.layouts,
 		"NSLOTS": fmt.Sprint(max(c.nslots, 1)), "RENEW": c.renew, "WIRING": c.wiring,
-		"MAXTICKS": fmt.Sprint(c.maxTicks), "EMIT": b(emit), "INVS": invs, "FAULTS": c.faults}}
+		"MAXTICKS": fmt.Sprint(c.maxTicks), "EMIT": b(emit), "INVS": invs, "FAULTS": c.faults,
+		"MAXRF": fmt.Sprint(c.maxRF), "LAPSE": b(c.lapse)}}
 }
 
 const (
@@ -185,10 +197,11 @@ const (
 	l3  = `"distinct", "same", "mixed"`
 	inG = "Unique HeldDisjoint NoTaken HeldMarked Exhaustion"
 	inF = "NoTaken Exhaustion FallbackOnlyDeviation"
-	inN = "NodeUnique NoForeign ClaimNeverExpiresUnderLiveHolder NoWrongTier FailedHoldsNothing"
+	inN = "NodeUnique NoForeign ClaimNeverExpiresUnderLiveHolder NoWrongTier FailedHoldsNothing Unique HeldDisjoint"
 	fG  = `"SetNX", "Delete"`         // one failing SetNX / Delete on the shared store
 	fF  = `"Exists", "Set", "Delete"` // fallback path
-	fN  = `"SetNX"`                   // one failing SetNXRuntime during allocation
+	fN  = `"SetNX", "Entropy"`        // one failing SetNXRuntime during allocation | the UUID sub-model with an entropy-failure window
+	fA  = `"SetNX", "Delete", "Exists", "Set"`
 	inL = "NoForeign NodeOnlyDeviation"
 )
 
@@ -212,17 +225,20 @@ func modelJobs(env *fw.Env) []fw.TLCJob {
 }
 
 func genJobs(env *fw.Env) []fw.TLCJob {
+	// To save JVM starts (they dominate the quick tier on a loaded machine) one run covers the store
+	// with SetNX and the store without (hasnx chosen in Init), and the allocator run carries the
+	// store-less UUID generators as a disjoint sub-model (initial states with fk = "Entropy").
+	// The fault configurations contain every fault-free transition too (the fault is optional).
+	faults := fG // quick: SetNX / Delete faults (fallback path: Delete only)
+	if env.Tier == "thorough" {
+		faults = fA
+	}
 	jobs := []fw.TLCJob{
-		// the fault configurations contain every fault-free transition too (the fault is optional)
-		mcfg{mode: "gen", procs: p2, layouts: l2, hasNX: true, ncands: 2, maxAtt: 2, maxCalls: 2, faults: fG}.job("gen:setnx:2x2x2", true, inG, 8),
-		mcfg{mode: "gen", procs: p2, layouts: l2, hasNX: false, ncands: 2, maxAtt: 2, maxCalls: 2, faults: fFq(env)}.job("gen:fallback:2x2x2", true, inF, 8),
-		mcfg{mode: "node", procs: n3, nslots: 2, faults: fN}.job("gen:node:untimed", true, inN, 4),
+		mcfg{mode: "gen", procs: p2, layouts: l2, bothNX: true, ncands: 2, maxAtt: 2, maxCalls: 2, faults: faults, lapse: true}.job("gen:both:2x2x2", true, "GenOK", 8),
+		mcfg{mode: "node", procs: n3, nslots: 2, ncands: 6, maxCalls: 2, faults: fN}.job("gen:node:untimed", true, inN, 4),
 	}
 	if env.Tier == "quick" {
-		// exhaustive only (prints nothing): the timed model of the repaired allocator (the model of the
-		// allocator as it was is checked in the thorough tier)
-		jobs = append(jobs,
-			mcfg{mode: "node", procs: n2, nslots: 2, renew: "claim", wiring: "split", maxTicks: 4}.job("mc:node:timed:renew=claim:split", false, inN, 4))
+		// (the timed allocator models are checked in the thorough tier)
 		return jobs
 	}
 	jobs = append(jobs,
@@ -231,16 +247,10 @@ func genJobs(env *fw.Env) []fw.TLCJob {
 		mcfg{mode: "gen", procs: p2, layouts: l2, hasNX: false, ncands: 3, maxAtt: 3, maxCalls: 2}.job("gen:fallback:2x3x2:att3", true, inF, 8),
 		mcfg{mode: "gen", procs: p3, layouts: l3, hasNX: false, ncands: 2, maxAtt: 2, maxCalls: 1}.job("gen:fallback:3x2x1", true, inF, 8),
 		mcfg{mode: "node", procs: n2, nslots: 2, renew: "claim", wiring: "split", maxTicks: 4}.job("gen:node:timed", true, inN, 8),
-		mcfg{mode: "node", procs: n2, nslots: 2, renew: "local", wiring: "split", maxTicks: 4}.job("legacy:node:timed", true, inL, 8))
+		mcfg{mode: "node", procs: n2, nslots: 2, renew: "local", wiring: "split", maxTicks: 4}.job("legacy:node:timed", true, inL, 8),
+		// transient heartbeat failures (never two in a row, at most 3 per node), one contended slot
+		mcfg{mode: "node", procs: n2, nslots: 1, maxCalls: 3, renew: "claim", wiring: "split", maxTicks: 8, maxRF: 3}.job("gen:node:renewfail:timed", true, inN, 8))
 	return jobs
-}
-
-// fallback-path faults only in the thorough tier (quick: 6 870 states without, 35 594 with)
-func fFq(env *fw.Env) string {
-	if env.Tier == "quick" {
-		return ""
-	}
-	return fF
 }
 
 // ---- expansion --------------------------------------------------------------------------------
@@ -259,10 +269,56 @@ var (
 	seenPlain = map[string]bool{}
 )
 
+func lapseAt(m *modelBeh) int {
+	for i, s := range m.St {
+		if s.A == "Lapse" {
+			return i
+		}
+	}
+	return -1
+}
+
+// renewFailCat: a holder survived three transient heartbeat failures, at least three healthy periods
+// (= one claim TTL) have passed since the last one, and only then another node tries the slot.
+func renewFailCat(m *modelBeh) bool {
+	last := m.St[len(m.St)-1]
+	if last.A != "Claim" {
+		return false
+	}
+	fails, okAfter, gone := map[string]int{}, map[string]int{}, map[string]bool{}
+	for _, s := range m.St {
+		switch {
+		case s.A == "Claim" && s.P == last.P:
+			for h, f := range fails {
+				if f >= 3 && okAfter[h] >= 3 && !gone[h] {
+					return true
+				}
+			}
+			return false
+		case s.A == "Renew" && s.P != last.P && s.R == "fail":
+			fails[s.P]++
+			okAfter[s.P] = 0
+		case s.A == "Renew" && s.P != last.P:
+			okAfter[s.P]++
+		case s.A == "CallRel" || s.A == "Crash":
+			gone[s.P] = true
+		}
+	}
+	return false
+}
+
 // timedCat classifies a timed node behaviour; "" = not worth 2 minutes of real time
 func timedCat(m *modelBeh) string {
 	if len(m.St) == 0 {
 		return ""
+	}
+	if renewFailCat(m) {
+		return "claim-after-transient-renew-failures"
+	}
+	for _, s := range m.St {
+		if s.A == "Renew" && s.R == "fail" {
+			return "" // other histories with heartbeat failures: 4 minutes each, not driven
+		}
 	}
 	last := m.St[len(m.St)-1]
 	if last.A != "Claim" || last.R != "ok" {
@@ -343,17 +399,46 @@ func expand(env *fw.Env, src string, raw json.RawMessage) []json.RawMessage {
 	h := hashOf(raw)
 	var out []json.RawMessage
 	switch {
-	case strings.HasSuffix(src, "node:timed"):
+	case strings.HasSuffix(src, "node:timed") || strings.HasSuffix(src, ":timed"):
 		if cat := timedCat(&m); cat != "" {
+			ns := 2
+			if strings.Contains(src, "renewfail") {
+				ns = 1
+			}
 			stashMu.Lock()
-			stash = append(stash, behaviour{Kind: "node", Store: "split", Tk: m.Tk, St: m.St, NSlots: 2, Timed: true, Src: src, Cat: cat})
+			stash = append(stash, behaviour{Kind: "node", Store: "split", Tk: m.Tk, St: m.St, NSlots: ns, Timed: true, Src: src, Cat: cat})
 			stashMu.Unlock()
+		}
+	case strings.HasPrefix(src, "gen:node") && (m.St[0].A == "UGen" || strings.HasPrefix(m.St[0].A, "Entropy")):
+		for i, k := range []string{"conn", "tun", "pmi"} {
+			out = append(out, fw.MustJSON(behaviour{Kind: "uuid", API: []string{"mgr", "gen"}[(h+i)%2], IDKind: k, Tk: []int{}, St: m.St}))
 		}
 	case strings.HasPrefix(src, "gen:node"):
 		for _, w := range []string{"split", "same", "local"} {
 			out = append(out, fw.MustJSON(behaviour{Kind: "node", Store: w, Tk: m.Tk, St: m.St, NSlots: 2}))
 		}
-	case strings.HasPrefix(src, "gen:setnx"):
+	case strings.HasPrefix(src, "gen:both") && !m.Nx && lapseAt(&m) >= 0:
+		// (time passing means nothing to the SetNX-less double)
+	case strings.HasPrefix(src, "gen:both") && !m.Nx:
+		ak := apiKinds[h%len(apiKinds)]
+		out = append(out, fw.MustJSON(behaviour{Kind: "gen", Store: "nocas", API: ak[0], IDKind: ak[1], Lay: m.Lay, Tk: m.Tk, St: m.St}))
+	case (strings.HasPrefix(src, "gen:setnx") || strings.HasPrefix(src, "gen:both")) && lapseAt(&m) >= 0:
+		// a long time passes: only a generator whose markers carry no expiry of their own (ttl 0) on a
+		// store with a short default TTL makes that a test (hybrid nodes over one shared cache); real
+		// sleeping, so only a sample - behaviours in which an id is outstanding when the time passes
+		every := 150
+		if env.Tier == "thorough" {
+			every = 25
+		}
+		held := false
+		for _, s := range m.St[:lapseAt(&m)] {
+			held = held || s.R == "ok"
+		}
+		if held && h%every == 0 {
+			ak := [][2]string{{"gen", "client"}, {"gen", "user"}, {"gen", "pmap"}}[h/every%3]
+			out = append(out, fw.MustJSON(behaviour{Kind: "gen", Store: "hybrid", API: ak[0], IDKind: ak[1], Lay: m.Lay, Tk: m.Tk, St: m.St, TTL0: true}))
+		}
+	case strings.HasPrefix(src, "gen:setnx") || strings.HasPrefix(src, "gen:both"):
 		for i, st := range []string{"cas", "hybrid"} {
 			ak := apiKinds[(h+i*3)%len(apiKinds)]
 			out = append(out, fw.MustJSON(behaviour{Kind: "gen", Store: st, API: ak[0], IDKind: ak[1], Lay: m.Lay, Tk: m.Tk, St: m.St}))
@@ -426,10 +511,12 @@ func maxBehSrc(env *fw.Env, src string) int {
 			return 3000
 		}
 		return 0
-	case strings.HasPrefix(src, "gen:setnx"):
+	case strings.HasPrefix(src, "gen:both"):
 		if q {
-			return 5000
+			return 6000
 		}
+		return 18000
+	case strings.HasPrefix(src, "gen:setnx"):
 		return 12000
 	case strings.HasPrefix(src, "gen:fallback"):
 		if q {
